@@ -11,6 +11,31 @@ def repo_hook_commits():
 
 # id -> (level, technique, level text, level note, design ref) ; None = not yet claimed
 CHECKS = {
+ "C01": ("exploration",
+         "conservation and solvency invariants recomputed after every message and tick + trace-level double entry, over generated whole-miner histories with random tolerated send failures injected",
+         "Sum of all balances constant, every effective send covered by the sender's balance, burn account only grows by exactly the effective sends to it, miner balance >= deposits+vesting+pledge, market escrow <= balance, reward never pays more than it holds; checked after every message and every cron tick with 1.5% of nested sends failing by injection. Payment-channel solvency is decided in C16's histories. Held on what was explored.",
+         "Trusted: MVM value-transfer/rollback semantics (differentially tested against TestVM); no gas, block production or minting in the MVM.",
+         "DESIGN.md 3/C01"),
+ "C02": ("exploration",
+         "state recomputation (claim == sum of proven, non-faulty, live sectors with an independent QA-power formula; network totals) + history shadow of PoSt coverage, after every message and tick",
+         "Per-miner claims and the four network totals are recomputed from sector infos and partition bitfields; a shadow built only from accepted PoSts / fault declarations / missed deadlines asserts that every sector counted active was covered by an accepted PoSt and is not known faulty. Held on what was explored.",
+         "Trusted: MVM; proofs are accepted unless marked invalid; my QA-power re-implementation (20-bit fixed point, 10x verified multiplier).",
+         "DESIGN.md 3/C02"),
+ "C03": ("exploration",
+         "ledger recomputation per miner and network pledge total vs sum over miners, after every message and tick; failed UpdatePledgeTotal sends flagged",
+         "pre-commit deposits == sum over pre-commit map, locked funds == sum of vesting table, initial pledge == sum over live sectors, network total == sum(pledge+vesting); any failed UpdatePledgeTotal inside an otherwise valid call is reported. Two known findings (creation deposit) are keyed by exact shape. Held on what was explored.",
+         "Trusted: MVM; the known-finding classification compares the mismatch with the exact sum of creation deposits.",
+         "DESIGN.md 3/C03, 5.1"),
+ "C04": ("exploration",
+         "full independent recomputation of the miner's sector bookkeeping (sets, memos, queues) after every successful message and cron callback + allocation history shadow",
+         "Every sector in exactly one partition, set relations, all power / pledge / fee / count memos and expiration-queue summaries recomputed from sector infos, queue keys on the deadline's grid, allocated numbers never shrink and never re-enter use. Held on what was explored.",
+         "Trusted: MVM; repo types used for decoding only; memo conventions (which sets each summary ranges over) follow the protocol definitions as also used by the in-tree checker.",
+         "DESIGN.md 3/C04"),
+ "C05": ("fault_enumeration",
+         "online trace monitor of every cron tick (exit code of every cron entry and miner callback, claims before/after, panics, exit 1000) + schedule invariants from the decoded power cron queue; nested sends failed by injection in C01's runs",
+         "Every tick and callback must exit 0, no claim may vanish, exactly one pending proving-deadline callback while a miner holds funds, recorded deadline index/offset current after each tick, expiration-queue entries popped by the tick that ends their deadline, no exit code 1000 anywhere. Known findings (creation deposit: no cron until first pre-commit; callback failure on pledge underflow in small networks) keyed by exact shape. Held on what was explored.",
+         "Trusted: MVM; sparse ticking runs every epoch that has a scheduled event (dense workload runs every epoch); recorded period start compared modulo the proving period (the code uses it as an offset).",
+         "DESIGN.md 3/C05, 5.1"),
  "C06": ("exploration",
          "invariant recomputation from raw market state after every message and tick + withdrawal oracle, over generated market histories on the real market/miner/power actors",
          "After every message and every cron tick the locked table is recomputed from the proposals/deal-state arrays (obligation formulas written in the harness) and compared per party and in total; every withdrawal's amount, recipient and caller are judged; rejected withdrawals must change nothing. Held on the histories explored.",
